@@ -169,11 +169,19 @@ add_binfunc!(add_int_pow, pow, X_INT, Int, X_INT, |a: &LazyBigint,
             "cannot raise zero to a zero power",
             rt.clone(),
         )?)
+    } else if a.is_zero() || a.abs().is_one() {
+        Ok(XValue::Int(a.clone().pow(b.clone())))
+    } else if b.to_usize().is_none() {
+        Err(ManagedXError::new("exponent too large", rt.clone())?)
     } else {
+        // the result has about bits(a) * b bits
         rt.can_allocate_by(|| {
-            b.to_usize()
-                .zip(a.bits().to_usize())
-                .map(|(b, a_bits)| (a_bits / 8) * b)
+            Some(
+                b.to_usize()
+                    .zip(a.bits().to_usize())
+                    .and_then(|(b, a_bits)| a_bits.checked_mul(b))
+                    .map_or(usize::MAX, |bits| bits / 8),
+            )
         })?;
         Ok(XValue::Int(a.clone().pow(b.clone())))
     }
